@@ -119,6 +119,12 @@ def shape_of(evs, k, kind):
         kinds = {status.get(v, "never-started") for v in vs}
         if not kinds:
             return "other"
+        # what is left of such a root: the documented residue on badger is the roots metadata only (nodes and root key are
+        # deleted, reads say 'root not found'); anything more than that (e.g. node keys that survived the clean-up) is another shape
+        if begin["backend"] == "badger":
+            reads = dict(m[5:].split(": ", 1) for m in (e.get("msgs") or "").split("; ") if m.startswith("read@") and ": " in m)
+            if any(str(v) in reads and "root not found" not in reads[str(v)] for v in vs):
+                return "interrupted-restore-leaves-more-than-the-roots-metadata"
         if kinds == {"aborted"}:
             return "after-aborted-restore"
         if kinds == {"crashed"}:
